@@ -157,7 +157,21 @@ def path_long(ctx, cfg):
                 f"(rng calls: {[(r['fn'], r['n']) for r in ctx.rng_log][:6]})", sig="uniform-primitive-per-column:long-list")
 
 
+def only_permutation_primitives(ctx):
+    """the push-forward argument and the tallies are built on full-length uniform permutation primitives; a generator that draws through
+    anything else (randrange, random, choice...) cannot be decided here: stop at the first such call instead of forking over its values"""
+    from symx.core import PathAbort
+
+    def flt(fn):
+        if fn not in ("shuffle", "sample"):
+            ctx.note("undecided: generator draws through RNG primitives other than shuffle/sample")
+            raise PathAbort("undecidable RNG mechanism")
+
+    ctx.rng_filter = flt
+
+
 def path(ctx, cfg):
+    only_permutation_primitives(ctx)
     if cfg["kind"] == "tally":
         return path_tally(ctx, cfg)
     if cfg["kind"] == "long":
